@@ -17,7 +17,7 @@ BAD_NUMBER_TOKENS = ["abc", "0.5abc", "1e", "1e+", ".", "+", "-", "+.e5", "0x10"
 INT_TOKENS = ["5", "-5", "+5", "0", "010", "2147483647", "-2147483648", "12"]
 BAD_INT_TOKENS = ["5x", "5.5", "2147483648", "-2147483649", "99999999999", "0x10", "-", "+", "abc", "1e3", "5 6"]
 BOOL_TOKENS = ["on", "off", "yes", "no", "true", "false"]
-BAD_BOOL_TOKENS = ["On", "TRUE", "1", "0", "y", "on off", "onn"]
+BAD_BOOL_TOKENS = ["On", "TRUE", "1", "0", "y", "on off", "onn", "on junk", "off on", "yes {", "true 1", "no no", "on\ton", "false x y"]
 WORDS = ["x", "one", "file.dat", "Group_1", "a/b", "dA", "x1"]
 
 
@@ -466,6 +466,18 @@ def gen_nested_case(r):
             lines[i] = l[:-1].rstrip() + b" " + r.choice([b"junk", b"foo", b"1"]) + b" {"
         else:
             tag = "valid"
+    elif m < 0.905:
+        # text after the complete value of a leaf keyword, on the same line: a junk word, or a keyword of the same level with
+        # its value (the line itself again); boolean flags preferred half of the time
+        leaf = [i for i, l in enumerate(lines) if re.match(rb"\s*[A-Za-z_]", l) and b"{" not in l and b"}" not in l and b"#" not in l]
+        flags = [i for i in leaf if lines[i].split()[0].lower() in (b"outputenergy", b"forcenopbc")]
+        if leaf:
+            tag = "trailing-text"
+            i = r.choice(flags) if flags and r.random() < 0.5 else r.choice(leaf)
+            l = lines[i].rstrip()
+            lines[i] = l + b" " + (b"junk" if r.random() < 0.5 else l.strip())
+        else:
+            tag = "valid"
     elif m < 0.93:
         tag = "brace"
         idx = [i for i, l in enumerate(lines) if b"{" in l or b"}" in l]
@@ -483,3 +495,37 @@ def gen_nested_case(r):
     if r.random() < 0.3:
         conf = decorate_raw(r, conf)
     return nested_schema_str(NESTED), conf, tag
+
+
+# ------------------------------------------------------------------ text after a complete value, for every value kind
+TRAIL_KINDS = ["B", "I", "R", "S", "U", "L", "V", "J", "N2", "T3", "Y3", "W", "B!", "R!"]
+TRAIL_FAMILIES = ["junk-word", "keyword-and-value", "open-brace", "close-brace", "brace-pair", "second-value"]
+
+
+def gen_trailing_cases(r):
+    """for every value kind: a GOOD value followed, on the same line, by a junk word / another keyword of the schema with its
+       value / a brace.  Returns [(schema string, conf bytes, kind, family, must_reject)]"""
+    out = []
+    for kind in TRAIL_KINDS:
+        for fam in TRAIL_FAMILIES:
+            k1, k2 = r.sample([k for k in KEYWORDS if k not in ("s", "colvar_")], 2)
+            other_kind = r.choice(["B", "R", "I"])
+            v1 = value_for(r, kind, True)
+            if kind.rstrip("!") == "B" and not v1:
+                v1 = "on"
+            v2 = value_for(r, other_kind, True) or "on"
+            tail = {"junk-word": "junk", "keyword-and-value": "%s %s" % (k2, v2), "open-brace": "{", "close-brace": "}",
+                    "brace-pair": "{ x }", "second-value": v1}[fam]
+            line = "%s %s %s" % (k1, v1, tail)
+            conf = (line + "\n").encode()
+            # a list of strings legitimately takes further words; everything else must be refused
+            must = not (kind == "W" and fam in ("junk-word", "keyword-and-value", "second-value"))
+            if kind == "W" and fam == "brace-pair" and "{" in v1:
+                # `key {x} { x }`: the value of a braced keyword is the text between the FIRST `{` and the LAST `}` of the line,
+                # so the strings are `x}`, `{`, `x` - odd, but every byte is taken as a value, nothing is dropped (NOTES.md)
+                must = False
+            if kind in ("V", "J", "Y3") and fam == "second-value":
+                must = False                      # one more number in a list of numbers is a longer list
+            sch = "%s:%s,%s:%s" % (kind, hx(k1), other_kind, hx(k2))
+            out.append((sch, conf, kind, fam, must))
+    return out
